@@ -105,7 +105,7 @@ def calls(rs, prop, t, loc, level):
             out.append({"kind": "op", "targets": [t], "gate": "Annihilation"})
     if prop in ("C06", "C07", "C20"):
         out.append({"kind": "kraus", "targets": [t], "ops": [mj(K) for K in rand_kraus(rs, d, 2)]})
-    if prop == "C09":
+    if prop in ("C09", "C20"):
         for des in (True, False):
             out.append({"kind": "povm", "targets": [t], "ops": [mj(K) for K in rand_kraus(rs, d, 2)], "destructive": des, "partial": True})
     if prop in ("C04", "C05", "C18") and not loc.startswith("env"):
@@ -113,7 +113,7 @@ def calls(rs, prop, t, loc, level):
             out.append({"kind": "measure", "targets": [t], "sep": sep, "destructive": des})
     if prop == "C02":
         out.append({"kind": "trace_out", "targets": [t]})
-    if prop == "C10" and t in (0, 2):
+    if prop in ("C10", "C07") and t in (0, 2):
         for delta in (2, 0, -1):
             out.append({"kind": "resize", "targets": [t], "dim": d + delta})
     if prop == "C08":
@@ -367,8 +367,79 @@ def twin_programs(prop):
     return progs
 
 
+def combine_programs(prop):
+    """a combine that has to lift one operand: a vector-level subsystem with complex amplitudes joined with
+    a partner that is already a (pure or mixed) density matrix -- through the composite and, for the two
+    members of one envelope, through the envelope"""
+    if prop not in ("C02", "C08"):
+        return []
+    rs = np.random.RandomState(8000 + sum(map(ord, prop)))
+    progs = []
+    for (a, b) in ((0, 3), (1, 2), (4, 1), (0, 1), (1, 0), (2, 4)):
+        for kind in ("matrix-mixed", "matrix-pure"):
+            steps = [superpose(rs, a), superpose(rs, b)]
+            if kind == "matrix-pure":
+                steps.insert(0, {"kind": "struct", "what": "set_contraction", "on": False})
+                steps += [{"kind": "struct", "what": "expand", "entry": "state", "targets": [b]}] * 2
+            else:
+                steps.append({"kind": "kraus", "targets": [b], "entry": "state", "ops": [mj(K) for K in rand_kraus(rs, DIM[b], 2)]})
+            joins = [{"kind": "struct", "what": "ce_combine", "h": 0, "targets": [a, b]}, {"kind": "struct", "what": "ce_combine", "h": 0, "targets": [b, a]}]
+            if {a, b} == {0, 1}:
+                joins.append({"kind": "struct", "what": "env_combine", "env": 0})
+            for j in joins:
+                progs.append({"seed": 7, "contraction": True, "focus": prop, "cell": f"struct:{j['what']}|-|t{a}(vector)+{b}({kind})",
+                              "setup": SETUP, "steps": steps + [j]})
+    return progs
+
+
+def special_programs(prop):
+    """single hand-built situations that random amplitudes do not reach"""
+    progs = []
+    if prop in ("C17", "C10"):
+        # (|0> + i|1> - |2>)/sqrt3 : the squares of the amplitudes that a shrink to one level would cut
+        # cancel (i^2 + (-1)^2 = 0); the request must be refused
+        w3 = np.exp(2j * np.pi / 3)
+        F3 = np.array([[1, 1, 1], [1, w3, w3 ** 2], [1, w3 ** 2, w3 ** 4]]) / np.sqrt(3)
+        setup = {"envs": [{"fock": 0, "pol": "H", "fdim": 3}], "customs": [], "composites": [["e0"]]}
+        for en in ("state", "env", "ce"):
+            for dim in (1, 2):
+                steps = [{"kind": "op", "targets": [0], "entry": "state", "gate": "FockCustom", "U": mj(F3)},
+                         {"kind": "op", "targets": [0], "entry": "state", "gate": "PhaseShift", "params": {"phi": np.pi / 2}},
+                         with_entry({"kind": "invalid", "what": "shrink_below_support", "targets": [0], "dim": dim}, en)]
+                progs.append({"seed": 7, "contraction": True, "focus": prop, "cell": f"invalid:shrink-quadrature|{en}|t0|own|vector|{dim}", "setup": setup, "steps": steps})
+    if prop == "C10":
+        # displacement of a high number state (almost no vacuum component afterwards), both levels
+        for n, a in ((16, 0.5), (20, 0.6)):
+            setup = {"envs": [{"fock": n, "pol": "H", "fdim": n + 1}], "customs": [], "composites": []}
+            for level in ("vector", "matrix"):
+                steps = [{"kind": "struct", "what": "set_contraction", "on": False}, {"kind": "struct", "what": "expand", "entry": "state", "targets": [0]}]
+                if level == "matrix":
+                    steps.append({"kind": "struct", "what": "expand", "entry": "state", "targets": [0]})
+                steps.append({"kind": "op", "targets": [0], "entry": "state", "gate": "Displace", "params": {"alpha_re": a, "alpha_im": 0.0}})
+                progs.append({"seed": 7, "contraction": False, "focus": prop, "cell": f"op:Displace|state|t0|own|{level}|n={n}", "setup": setup, "steps": steps})
+    if prop == "C03":
+        # three members at density-matrix level, storage rotated cyclically, then a two-operand gate
+        rs = np.random.RandomState(9000)
+        for order in ((3, 4, 1), (4, 1, 3)):
+            for level in ("matrix-pure", "matrix-mixed"):
+                steps = [superpose(rs, t) for t in (1, 3, 4)]
+                if level == "matrix-pure":
+                    steps.insert(0, {"kind": "struct", "what": "set_contraction", "on": False})
+                steps.append({"kind": "struct", "what": "ce_combine", "h": 0, "targets": [1, 3, 4]})
+                steps.append({"kind": "kraus", "targets": [1, 3, 4], "entry": "ce", "h": 0, "ops": [mj(rand_unitary(rs, 12))]})
+                if level == "matrix-pure":
+                    steps.append({"kind": "struct", "what": "expand", "entry": "ce", "h": 0, "targets": [1]})
+                else:
+                    steps.append({"kind": "kraus", "targets": [4], "entry": "state", "ops": [mj(K) for K in rand_kraus(rs, 3, 2)]})
+                steps.append({"kind": "struct", "what": "ce_reorder", "h": 0, "targets": list(order), "nocheck": True})
+                for g, T in (("CX", [1, 3]), ("CX", [3, 1]), ("CZ", [1, 3])):
+                    progs.append({"seed": 7, "contraction": True, "focus": prop, "cell": f"op:{g}|ce|t{T[0]}+{T[1]}|ps-rotated{order}|{level}",
+                                  "setup": SETUP, "steps": steps + [{"kind": "op", "gate": g, "targets": T, "entry": "ce", "h": 0}]})
+    return progs
+
+
 def cell_programs(prop, seed=0):
-    return (foreign_programs(prop) + twin_programs(prop) + single_programs(prop) + pair_programs(prop) + triple_programs(prop) + envelope_measure_programs(prop)
+    return (special_programs(prop) + combine_programs(prop) + foreign_programs(prop) + twin_programs(prop) + single_programs(prop) + pair_programs(prop) + triple_programs(prop) + envelope_measure_programs(prop)
             + reuse_programs(prop))
 
 
@@ -394,5 +465,5 @@ def single_programs(prop, seed=0):
 if __name__ == "__main__":
     import sys, collections
     for p in sys.argv[1:]:
-        ps = twin_programs(p)
+        ps = special_programs(p) + combine_programs(p)
         print(p, len(ps), collections.Counter(x["cell"].split("|")[0] for x in ps))
